@@ -4,5 +4,6 @@
 set -e
 S="$2"; rm -rf "$S"; mkdir -p "$S/repo" "$S/ev"
 cp -r /repo/src "$S/repo/src"; rm -rf "$S/repo/src/test/googletest"
+cp /repo/README.md "$S/repo/" 2>/dev/null || true
 (cd "$S/repo" && patch -p1 -s < "$1")
 echo "VERIF_REPO=$S/repo VERIF_EVIDENCE_DIR=$S/ev VERIF_WORK=$S/work"
